@@ -77,6 +77,27 @@ def has_unsupported(v: Val) -> Optional[str]:
     return None
 
 
+VALUE_CHANGING = ('lib:numpy.maximum', 'lib:numpy.minimum', 'lib:numpy.clip', 'lib:numpy.round', 'lib:numpy.around', 'lib:numpy.floor', 'lib:numpy.ceil',
+                  'lib:numpy.abs', 'lib:numpy.absolute', 'lib:numpy.fabs', 'lib:numpy.nan_to_num', 'lib:numpy.where', 'lib:numpy.trunc', 'lib:numpy.rint',
+                  'lib:numpy.sign', 'lib:numpy.fmax', 'lib:numpy.fmin', 'method:clip', 'method:round', 'lib:numpy.sort')
+
+
+def split_branches(v, path=()):
+    """(conditions, value) for every branch of a conditionally selected value"""
+    if isinstance(v, Gam):
+        return split_branches(v.a, path + (v.pred,)) + split_branches(v.b, path + (P('not', v.pred) if not (isinstance(v.pred, P) and v.pred.op == 'not')
+                                                                              else v.pred.args[0],))
+    return [(path, v)]
+
+
+def post_processed(v) -> Optional[str]:
+    """name of a value-changing library call wrapped around an array value (clamping, rounding, ...), None otherwise"""
+    t = arr_term(v) if isinstance(v, Num) else v
+    if isinstance(t, Term) and t.head in VALUE_CHANGING:
+        return t.head.split(':', 1)[1]
+    return None
+
+
 def need_num(ctx, rule, what, v, fi: FuncInfo):
     """the value must be numeric-canonical; otherwise the construct is not recognised"""
     if isinstance(v, Num):
@@ -247,6 +268,27 @@ def result_positions(ev, res) -> Dict[str, int]:
             if v is item or (isinstance(v, Val) and not isinstance(v, (Const, Tup)) and veq(v, item)):
                 out.setdefault(name, j)
     return out
+
+
+def flag_used_as_truth(ctx, rule: str, fi: FuncInfo, flag: str, args: Dict[str, Val], what: str):
+    """a boolean option is used as a truth value: evaluated with the flag symbolic, every test that mentions it is its truthiness (numpy.bool_, 1, ...
+    select the same branch as True); an identity / equality comparison with a literal is reported"""
+    fv = Term('param', (Const(flag),))
+    a2 = dict(args)
+    a2[flag] = fv
+    ev = Evaluator(ctx.prog, inline=inline_except(*SCANS), opaque_kind=REPO_RESULT_KIND)
+    res, st = ev.run_function(fi, args=a2)
+    vals = [res] + [g for e in ev.events for g in e.guard] + [e.data.get('value') for e in ev.events if e.kind in ('store', 'field')]
+    leaves = []
+    for v in vals:
+        if v is None:
+            continue
+        for t in walk_vals(v):
+            if isinstance(t, P) and t.op not in ('not', 'and', 'or') and any(veq(u, fv) for u in walk_vals(t)):
+                leaves.append(t)
+    odd = sorted({str(t) for t in leaves if not (t.op == 'truthy' and veq(t.args[0], fv))})
+    return ctx.check(bool(leaves) and not odd, rule, f"{what}: `{flag}` is used as a truth value (any true value selects the same behaviour as True)",
+                     f"tests on the flag: {odd or [str(t) for t in leaves][:3] or 'none found'}", fi.loc(), fi.qualname, f"truthy:{fi.name}:{flag}")
 
 
 TOLERANT = ('numpy.isclose', 'numpy.allclose', 'math.isclose', 'numpy.testing.assert_allclose')
